@@ -7,6 +7,8 @@ import InfluxQL.Lemmas.RenderQuery
 import InfluxQL.Lemmas.RenderPrinted
 import InfluxQL.Lemmas.PrintedFamilies
 import InfluxQL.Lemmas.PrintedFamiliesT
+import InfluxQL.Lemmas.PrintedNoCR
+import InfluxQL.Lemmas.PrintedGapSep
 import InfluxQL.Props.C04
 /-!
 # C16 — statement separation, whitespace and comments do not change meaning
@@ -964,5 +966,140 @@ example : WsRun [' ', '\n', '\t'] := ⟨by decide, by decide⟩
 example : (scanN 1 (Cursor.ofRunes ['a', ' ', 'b'])).rest.length = ([' '] ++ ['b']).length + 1 := by decide
 example : sigTokens (Cursor.ofRunes ['a', ' ', 'b']) =
     sigTokens (Cursor.ofRunes ['a', '\n', '/', '*', 'c', '*', '/', '\t', 'b']) := by decide
+
+/-! ## Printed queries, third part: no carriage return in the printed text, from the class predicates -/
+
+open PrintedQuery RenderPrinted in
+/-- **A printed query of statements of the instantiated families contains no carriage return.** `qs` is a list
+of statements given by the data their class predicates speak about (`QFam`: the 14 plain printed kinds, DELETE,
+DROP SERIES, SHOW SERIES / TAG KEYS / FIELD KEYS / MEASUREMENTS, SELECT in `SimpleSelect` / `IntoSelect` / `selOKB tbl n`,
+EXPLAIN, CREATE CONTINUOUS QUERY), `QFam.OK tbl` the decidable class predicate of the family. Every class implies
+CR-freeness: names, aliases, database / policy / zone names are `Expressible` (no NUL, no CR), expressions print
+without CR (`RT.print_noCR`, `RT.printW_noCR`), keywords, digits, durations and punctuation contain none; subqueries
+by induction on the depth index of `selOKB`.
+
+The statement is over `QFam`, not over `QStmtT`: `QStmtT.OK tbl` is the *interface* ("the handler reads the body
+back"), stated for an arbitrary keyword path / body / statement, and says nothing about the characters of the
+text; `QFam.toT_ok` turns the class predicate into the interface. -/
+theorem printStatements_no_cr (qs : List QFam) (tbl : List (Char × Char)) (hok : ∀ q ∈ qs, q.OK tbl) :
+    ∀ c ∈ printStatements (qs.map QFam.stmt), c ≠ '\r' :=
+  noCR_printStatements_fam tbl qs hok
+
+open PrintedQuery RenderPrinted in
+/-- **`ParseQuery(Statements.String())` = the statements**, for the printed query itself, with no hypothesis about
+carriage returns left: the printed text of statements of the instantiated families — each in the class of its
+family (`QFam.OK tbl`) — parses with table `tbl` to exactly these statements, in order.
+
+Partial: the classes of the families (as in `parseQuery_printed_all_partial`), and `hdepth`: subqueries nested
+less than 98 deep (the expression fuel `parseQueryText` grants covers `depth + 3`; decidable). -/
+theorem parseQuery_printed_all_text_nocr_partial (qs : List QFam) (params : List (Str × BoundValue))
+    (tbl : List (Char × Char)) (hok : ∀ q ∈ qs, q.OK tbl) (hdepth : ∀ q ∈ qs, q.depth ≤ 97) :
+    parseQueryText (printStatements (qs.map QFam.stmt)) params tbl = .ok (qs.map QFam.stmt) := by
+  have h := parseQuery_printed_all_text_partial (qs.map QFam.toT) params tbl
+    (by
+      intro q hq
+      obtain ⟨f, hf, rfl⟩ := List.mem_map.mp hq
+      exact f.toT_ok tbl (hok f hf))
+    (by
+      intro q hq
+      obtain ⟨f, hf, rfl⟩ := List.mem_map.mp hq
+      exact Nat.le_trans f.toT_minFuel_le (by have := hdepth f hf; omega))
+    (by rw [QFam.map_toT_stmt]; exact printStatements_no_cr qs tbl hok)
+  rw [QFam.map_toT_stmt] at h
+  exact h
+
+section printedExamplesNoCR
+open PrintedQuery RenderPrinted
+
+/-- `EXPLAIN ANALYZE SELECT max(v) FROM (SELECT v FROM m);⏎CREATE CONTINUOUS QUERY cq ON db BEGIN SELECT mean(value)
+INTO tgt FROM cpu GROUP BY time(5m) END;⏎DELETE WHERE host = 'b';⏎SELECT mean(value) FROM cpu WHERE time > now() - 1h
+GROUP BY time(5m) fill(none);⏎SHOW DATABASES`, by the data of the classes. -/
+def exQueryF : List QFam :=
+  [.explain 2 exSelSub true false, .cq 1 "cq".toList "db".toList 0 0 exCQSelT, .delete [] exCondB,
+   .selectSub 1 exSelWide,
+   .plain (.zeroArg ([.SHOW, .DATABASES], .parseShowDatabasesStatement, .showDatabases) (by simp [C01.zeroArgFamily]))]
+
+/-- Non-vacuity, through the theorem: nothing but the (decidable) class predicates and the depths is checked. -/
+example : printStatements (exQueryF.map QFam.stmt) =
+      ("EXPLAIN ANALYZE SELECT max(v) FROM (SELECT v FROM m);\n" ++
+        "CREATE CONTINUOUS QUERY cq ON db BEGIN SELECT mean(value) INTO tgt FROM cpu GROUP BY time(5m) END;\n" ++
+        "DELETE WHERE host = 'b';\n" ++
+        "SELECT mean(value) FROM cpu WHERE time > now() - 1h GROUP BY time(5m) fill(none);\nSHOW DATABASES").toList ∧
+    parseQueryText (printStatements (exQueryF.map QFam.stmt)) [] [] = .ok (exQueryF.map QFam.stmt) := by
+  refine ⟨by decide +kernel, ?_⟩
+  refine parseQuery_printed_all_text_nocr_partial exQueryF [] [] ?_ ?_
+  · intro q hq
+    simp only [exQueryF, List.mem_cons, List.not_mem_nil, or_false] at hq
+    rcases hq with rfl | rfl | rfl | rfl | rfl
+    · exact (by decide +kernel : selOKB [] 2 exSelSub = true)
+    · exact (by decide +kernel : CQOK [] 1 "cq".toList "db".toList 0 0 exCQSelT)
+    · exact (by decide +kernel : DeleteLikeOK [] exCondB)
+    · exact (by decide +kernel : selOKB [] 1 exSelWide = true)
+    · trivial
+  · intro q hq
+    simp only [exQueryF, List.mem_cons, List.not_mem_nil, or_false] at hq
+    rcases hq with rfl | rfl | rfl | rfl | rfl <;> decide
+
+/-- The classes do exclude carriage returns: a measurement name with a CR is outside `DeleteLikeOK` (and the parser
+never produces one: the reader folds CR to LF). -/
+example : ¬ (QFam.delete [['a', '\r', 'b']] none).OK [] :=
+  (by decide +kernel : ¬ DeleteLikeOK [['a', '\r', 'b']] none)
+
+end printedExamplesNoCR
+
+/-! ## Printed statements separated by `;` and arbitrary gaps behind it -/
+
+open PrintedQuery RenderPrinted in
+/-- **C16 (a) with free layout behind the separator.** `qs` is a list of printed statements of the instantiated
+kinds (`QStmtT`, as in `parseQuery_printed_all_partial`), each with a gap in front of it: any sequence of whitespace
+runes, `/* … */` and `-- …⏎` comments (`Render.Gap`, well-formed: `gapOK`), possibly empty. A raw text whose delivered
+form is `gap₀ stmt₀;gap₁ stmt₁;gap₂ stmt₂ …` (`gapSepText`) parses with table `tbl` to exactly these statements, in
+order: the layout between `;` and the next statement — none, blanks, line feeds, comments — changes nothing, no
+statement swallows the next one, none is cut short. The printer's `;⏎` is the instance `gapᵢ = [⏎]`.
+
+Partial: the classes of the families; `hdepth` (subqueries nested less than 98 deep); and the `;` stands directly
+behind the last token of its statement, nothing follows the last statement — a gap *before* the `;` (and a trailing
+`;`) is not covered: every family theorem would have to be given a continuation `gap ;…` (`Follow` / `Ends` for
+`gapText g ++ ';' :: t`); only a single blank there is inside the proved continuation class. -/
+theorem parseQuery_gap_after_semicolon_partial (qs : List (Render.Gap × QStmtT)) (text : Str)
+    (params : List (Str × BoundValue)) (tbl : List (Char × Char)) (hok : ∀ z ∈ qs, z.2.OK tbl)
+    (hgap : ∀ z ∈ qs, Render.gapOK z.1 = true) (hdepth : ∀ z ∈ qs, z.2.minFuel ≤ 100)
+    (hfold : foldCR text = gapSepText (gItems qs)) :
+    parseQueryText text params tbl = .ok (qs.map (·.2.stmt)) :=
+  parseQueryText_gapsep_qstmtsT C04.gen_dispatch_depth qs text params tbl hok hgap
+    (fun z hz => Nat.le_trans (hdepth z hz) (by unfold fuelFor; omega)) hfold
+
+section gapSepExamples
+open PrintedQuery RenderPrinted Render
+
+/-- `SELECT … fill(none); /* c */⏎SELECT max(v) FROM (SELECT v FROM m);-- x⏎⇥SHOW DATABASES;DELETE WHERE host = 'b'`. -/
+def exQueryG : List (Render.Gap × QStmtT) :=
+  [([], .wide 4 (selectSubPS exSelWide)),
+   ([.ws ' ', .block [' ', 'c', ' '], .ws '\n'], .wide 5 (selectSubPS exSelSub)),
+   ([.line [' ', 'x'], .ws '\t'],
+     .plain (.zeroArg ([.SHOW, .DATABASES], .parseShowDatabasesStatement, .showDatabases) (by simp [C01.zeroArgFamily]))),
+   ([], .expr (deletePS [] exCondB))]
+
+/-- Non-vacuity, through the theorem: a block comment, a line comment, a tab and no gap at all behind the `;`. -/
+example : parseQueryText
+      ("SELECT mean(value) FROM cpu WHERE time > now() - 1h GROUP BY time(5m) fill(none); /* c */\n" ++
+        "SELECT max(v) FROM (SELECT v FROM m);-- x\n\tSHOW DATABASES;DELETE WHERE host = 'b'").toList [] [] =
+      .ok (exQueryG.map (·.2.stmt)) := by
+  refine parseQuery_gap_after_semicolon_partial exQueryG _ [] [] ?_ ?_ ?_ (by decide +kernel)
+  · intro z hz
+    simp only [exQueryG, List.mem_cons, List.not_mem_nil, or_false] at hz
+    rcases hz with rfl | rfl | rfl | rfl
+    · exact selectSubPS_ok [] 1 _ (by decide +kernel)
+    · exact selectSubPS_ok [] 2 _ (by decide +kernel)
+    · trivial
+    · exact deletePS_ok _ _ (by decide +kernel)
+  · intro z hz
+    simp only [exQueryG, List.mem_cons, List.not_mem_nil, or_false] at hz
+    rcases hz with rfl | rfl | rfl | rfl <;> decide
+  · intro z hz
+    simp only [exQueryG, List.mem_cons, List.not_mem_nil, or_false] at hz
+    rcases hz with rfl | rfl | rfl | rfl <;> decide
+
+end gapSepExamples
 
 end InfluxQL.C16
